@@ -266,9 +266,7 @@ func (s *fullSim) answerChoices(ch *[]simkit.Choice) {
 		}})
 		if s.cfg.Partial {
 			*ch = append(*ch, simkit.Choice{Name: "partial:" + id, W: 1, Fire: func() {
-				var n int
-				fmt.Sscanf(id, "call:%d", &n)
-				c := s.be.call(n)
+				c := s.be.byGateID(id)
 				keys := make([]string, 0, len(c.Items))
 				for k := range c.Items {
 					keys = append(keys, k)
@@ -422,7 +420,7 @@ func (s *fullSim) finalChecks() {
 			if !q.beforeShutdown {
 				continue
 			}
-			for id := range q.items {
+			for _, id := range sortedKeys(q.items) {
 				n := attempts[id]
 				switch {
 				case s.cfg.Persistent:
